@@ -191,6 +191,11 @@ func stubIndexByte(it *Interp, fr *frame, cc *ssa.CallCommon, a []Value) Value {
 		}
 		res = st.Ite(hit, it.c64(int64(k)), res)
 	}
+	if fr != nil && fr.fn != nil && fr.fn.String() == "(*bytes.Buffer).readSlice" && !res.IsConst() {
+		// delimiter search that moves a read cursor: fork on the position (keeps later
+		// offsets concrete; chains of symbolic cursors do not scale)
+		return it.c64(int64(it.concretize(res)))
+	}
 	return it.tryConst(res)
 }
 
